@@ -120,3 +120,32 @@ def stabilizer_to_paulis(stab):
             z |= (int(stab.S[i, j]) & 1) << i
         out.append((int(stab.phases[j]) & 1, x, z))
     return out
+
+
+# ---- resource guard for calls that may blow up on degenerate input ---------------------------
+class GuardTimeout(Exception):
+    """raised inside a library call that exceeded the harness' time guard (never a verdict)"""
+
+
+def limit_memory(gb=4):
+    import resource
+    try:
+        soft, hard = resource.getrlimit(resource.RLIMIT_AS)
+        resource.setrlimit(resource.RLIMIT_AS, (int(gb * (1 << 30)), hard))
+    except Exception:  # noqa: BLE001
+        pass
+
+
+def guarded(fn, seconds=15):
+    """run fn() with a wall-clock guard; GuardTimeout is raised inside fn when it expires"""
+    import signal
+
+    def handler(signum, frame):
+        raise GuardTimeout(f"library call exceeded the harness guard of {seconds}s")
+    old = signal.signal(signal.SIGALRM, handler)
+    signal.setitimer(signal.ITIMER_REAL, seconds)
+    try:
+        return fn()
+    finally:
+        signal.setitimer(signal.ITIMER_REAL, 0)
+        signal.signal(signal.SIGALRM, old)
